@@ -324,11 +324,11 @@ Section WfPrune.
         * now rewrite pts_last_leaf.
         * destruct cs as [|c r]; [exact I|]. cbn [ptree_list]. rewrite tdata_ptree. exact (wf_tree_Sub_in_edge _ _ _ Hw0).
         * destruct H3 as [E|E]; [now left | right; now rewrite pts_creates].
-        * destruct cs as [|c r]; [reflexivity|]. cbn [ptree_list tl] in *.
+        * destruct cs as [|c r]; [reflexivity|]. cbn [ptree_list tl length] in *.
           unfold all_wf in H5. cbn [forallb] in H5. apply andb_prop in H5. destruct H5 as [_ H5r].
           inversion IH as [|c' r' _ IHr]; subst.
           destruct (pts_wf r IHr H5r (Datatypes.S p) (p + Datatypes.S (length r) + desc c)%nat) as [_ B']. now rewrite B'.
-      + apply wf_tree_Sub_intro; try assumption; try reflexivity. now left || (destruct H3; [now left | now right]).
+      + apply wf_tree_Sub_intro; try assumption; try reflexivity; try exact I. now right.
   Qed.
 
   Lemma wf_root_ptree : forall t, wf_root t = true -> wf_root (pt t 0 1) = true.
@@ -355,12 +355,13 @@ Theorem shrink_ok : forall cc hdr ptr t G,
   wf_root t = true -> flat_ok t G ->
   exists G', copy_pi_dag cc hdr ptr G = Ok G' /\ dag_wf G' /\
              flat_ok (ptree cc (gT G) t 0 1) G' /\ gsc G' = gsc G /\ gnw G' = gnw G /\
-             Forall2 (fun y x => shape y = shape x) (gT G') (T0' cc (gT G) (gS G)).
+             exists ps, gT G' = set_ptrs (T0' cc (gT G) (gS G)) ps /\ length ps = length (T0' cc (gT G) (gS G)).
 Proof.
   intros cc hdr ptr t G Hroot (HL & Hlen & HN & _).
   set (T := gT G) in *. set (KL := kflags_all cc T t).
   pose proof (klay_all cc T t) as HK. fold KL in HK.
-  destruct (pruned_lay cc T t HL Hlen HN KL HK (gS G)) as [HL' Hlen'].
+  assert (HKlen : length KL = length T) by (unfold KL; now rewrite kflags_all_length, Hlen).
+  destruct (pruned_lay cc T t HL Hlen HN KL HK HKlen (gS G)) as [HL' Hlen'].
   assert (HN' : Forall (fun y => length y = N_node) (T0' cc T (gS G))).
   { rewrite T0'_eq. apply intern_all_lengths. apply copy_nodes_lengths. exact HN. }
   unfold copy_pi_dag.
@@ -369,6 +370,6 @@ Proof.
   assert (HT0 : T0 = T0' cc T (gS G)) by (unfold T0'; now rewrite <- Hpn).
   subst T0.
   destruct (finish_ok hdr ptr (gsc G) (gnw G) _ tbl _ (wf_root_ptree cc T t Hroot) HL' Hlen' HN')
-    as (G' & HG' & Hwf & Hflat & Hsc & Hnw & _ & Hsh).
-  exists G'. split; [exact HG'|]. split; [exact Hwf|]. split; [exact Hflat|]. split; [exact Hsc|]. split; [exact Hnw | exact Hsh].
+    as (G' & HG' & Hwf & Hflat & Hsc & Hnw & _ & _ & Hps).
+  exists G'. split; [exact HG'|]. split; [exact Hwf|]. split; [exact Hflat|]. split; [exact Hsc|]. split; [exact Hnw | exact Hps].
 Qed.
